@@ -7,6 +7,9 @@ def wrap(kind, tiers):
         functions=["process_data (lib/xfrm/src/%s.c)" % nm],
         bound="one process_data call: input 0..4 bytes, output space 0..4 bytes, flush mode NONE/FULL, library backlog 0..3 bytes, every library behaviour the contract stub allows")
 OBLIGATIONS += [wrap(1, ["quick", "thorough"]), wrap(2, ["quick", "thorough"]), wrap(3, ["quick", "thorough"]), wrap(4, ["quick", "thorough"])]
+OBLIGATIONS.append(dict(name="codec_magic_detection", harness="harness/C15_magic.c", sources=[], included_sources=["lib/xfrm/src/compress.c"], unwind=10,
+    unwindset={"memcmp.0": 8}, tiers=["quick", "thorough"], timeout=200, reach=["detected", "plain"],
+    functions=["xfrm_compressor_id_from_magic (lib/xfrm/src/compress.c)"], bound="every buffer of 0..8 bytes (exact-size heap object)"))
 def ost(n, k, buf, tiers, timeout=400):
     return dict(name="ostream_wrapper_n%d_k%d_buf%d" % (n, k, buf), harness="harness/C15_ostream.c", sources=[], included_sources=["lib/xfrm/src/ostream.c"],
         defines={"N": n, "K": k, "BUF": buf, "AGENTD_SQUASHFS_TOOLS_NG_VERIF_BUFSZ": buf}, unwind=max(n + buf, n * k + 3) + 1, unwindset={'flush_inbuf.0': n * k + 4, 'xfrm_append.0': n + 2}, termination=True, tiers=tiers, timeout=timeout,
